@@ -13,6 +13,7 @@ import NurbsVerif.Lemmas.UniqueVolRows
 import NurbsVerif.Lemmas.UniqueVolObjRows
 import NurbsVerif.Lemmas.UniqueActive
 import NurbsVerif.Lemmas.UniqueTensorObjKnots
+import NurbsVerif.Lemmas.RemoveMultiExample
 
 /-!
 # C06  Removing a removable knot is exact and inverts insertion
@@ -34,8 +35,12 @@ volume AS A SURFACE / VOLUME is removable from every iso-curve and is removed ex
 `mapVol`, and the rows branch `mapVolRows` the code runs on volumes), any count `t ≤ r`, and object level
 (`removeKnot` on a surface / volume `Shape` with the library's own span / multiplicity searches); knot insertion
 preserves `AllActive` (the activity hypothesis may be checked on the reduced knot vector).
-Not proved: insertion in several directions followed by removal in several directions; several directions in one
-`removeKnot` call of the "removable at all" form.
+Section (M): SEVERAL DIRECTIONS IN ONE CALL – `insert_knot` requesting any subset of the directions of a surface /
+volume followed by `remove_knot` with the same parameters and counts `t_d ≤ r_d` returns `insert_knot` with the counts
+`r_d - t_d` (the original object for `t = r`), evaluated points unchanged; "removable at all" when one `remove_knot`
+call requests several directions (a chain of removable knots in distinct directions, any order).  Tools: A5.1 is a
+linear map of the control polygon with coefficients from the knots only, so direction steps of `insert_knot` along
+different directions commute (gather / scatter commute).
 Proof idea (Lemmas/RemoveInv*.lean): in removal step `t` the left sweep solves
 `Q_i = α_i P_i + (1-α_i) P_{i-1}` for `P_i`, the right sweep for `P_{j-1}`; the removal alphas on
 the refined knots are the insertion alphas on the knots with one copy less; the removability test
@@ -1239,6 +1244,278 @@ example : removeKnotVolRows exVolRefQ 2 (1/2) 1 (1/10000000) 0 true = some exVol
 example : AllActive 2 (4 + 2) (fnOf (knotInsertionKv ([0,0,0,1/2,1,1,1] : List ℚ) (1/4) 2 2)) :=
   insertion_preserves_allActive 2 4 _ (1/4) 2 2 0 (mono_of_pairwise _ (by decide +kernel)) (by decide) (by decide +kernel)
     (by decide +kernel) (by decide +kernel) (by decide +kernel) (by decide +kernel) (by decide) (by decide) (by decide)
+
+
+/-! ## (M) Several directions in ONE call
+
+`operations.insert_knot` / `remove_knot` loop over the directions `0, 1(, 2)` in this order; direction `d` is requested
+when `param[d]` is not `None` and `num[d] ≠ 0`.  `RoundCallOk n S params nums tol`: every requested direction of the call
+is admissible in the sense of `RoundOk` (section "object level" above).  `Multi.subNums nums nums'`: the count list
+`nums[d] - nums'[d]` (`subNums_entries`).  The removal of the first direction runs on a net that is refined in the
+other directions; the proofs move the insertion step of that direction through the later ones
+(`*_insert_directions_commute`: A5.1 is linear in the control points, `knot_insertion_is_linear`, so the gather /
+scatter of two different directions commute), cancel it against the removal (one-direction theorems above) and move
+the rest back.  The lists are read with `getD`; the list guards of the code (`len(num) = pdim ≤ len(param)`) are the
+hypotheses `hpl`, `hnl` as before. -/
+
+open Multi in
+/-- the entries of `subNums nums nums'` are `nums[d] - nums'[d]`, and it is as long as `nums` -/
+theorem subNums_entries (nums nums' : List ℕ) (d : ℕ) :
+    (subNums nums nums').getD d 0 = nums.getD d 0 - nums'.getD d 0 ∧ (subNums nums nums').length = nums.length :=
+  ⟨subNums_getD nums nums' d, subNums_length nums nums'⟩
+
+/-- **A5.1 is a linear map of the control polygon**: for `p ≤ k < n`, `r + s ≤ p` there is a matrix `A` (depending on
+    the knots, `u`, `r`, `s`, `k` only) such that for EVERY polygon `c` of `n` points of dimension `d`, every coordinate
+    `l` of every new point `i` is `Σ_m A i m · c_m[l]`. -/
+theorem knot_insertion_is_linear (p d n : ℕ) (U : ℕ → K) (u : K) (r s k : ℕ) (hpk : p ≤ k) (hk : k < n) (hrs : r + s ≤ p) :
+    ∃ A : ℕ → ℕ → K, ∀ c : List (List K), c.length = n → NetOk d c → ∀ i, i < n + r → ∀ l,
+      (ptsGet (knotInsertion p U c u r s k) i).getD l 0 = ∑ m ∈ Finset.range n, A i m * (ptsGet c m).getD l 0 :=
+  (Multi.knotInsertion_coordLin p d n U u r s k hpk hk hrs).lin
+
+/-- **The u step and the v step of `insert_knot` on a surface commute** (both requests admissible on `S`;
+    `insDirOf S dir ub r tol` is what `insertKnotDir S dir ub r` returns, `insertKnotDir_is_insDirOf`). -/
+theorem surface_insert_directions_commute (d : ℕ) (S : Shape K) (hS : SurfWF d S) (a b : K) (r0 r1 : ℕ) (tol : K)
+    (h0 : DirReqOk S 0 a r0 tol) (h1 : DirReqOk S 1 b r1 tol) :
+    insDirOf (insDirOf S 0 a r0 tol) 1 b r1 tol = insDirOf (insDirOf S 1 b r1 tol) 0 a r0 tol :=
+  Multi.surface_insDir_comm d S hS a b r0 r1 tol h0 h1
+
+/-- **Any two direction steps of `insert_knot` on a volume commute** (`da < db < 3`). -/
+theorem volume_insert_directions_commute (d : ℕ) (S : Shape K) (hS : VolWF d S) (da db : ℕ) (hlt : da < db) (hdb : db < 3)
+    (a b : K) (r0 r1 : ℕ) (tol : K) (h0 : DirReqOk S da a r0 tol) (h1 : DirReqOk S db b r1 tol) :
+    insDirOf (insDirOf S da a r0 tol) db b r1 tol = insDirOf (insDirOf S db b r1 tol) da a r0 tol :=
+  Multi.volume_insDir_comm d S hS da db hlt hdb a b r0 r1 tol h0 h1
+
+/-- **Surfaces, several directions in one call each**: `insert_knot` requesting ANY subset of the two directions (counts
+    `nums`) followed by `remove_knot` with the same parameters and counts `nums' ≤ nums` (entry by entry; `0` = leave
+    that direction alone) returns exactly what `insert_knot` with the counts `nums - nums'` returns – object and success
+    flag; spans and multiplicities of the removal by the library's own searches on the refined object; either setting
+    of the `check` flags, every `tol2 ≥ 0`. -/
+theorem surface_insert_then_remove_several_directions (d : ℕ) (S : Shape K) (hS : SurfWF d S) (params : List (Option K))
+    (nums nums' : List ℕ) (tol tol2 : K) (c1 c2 : Bool) (hpl : 2 ≤ params.length) (hnl : nums.length = 2)
+    (hnl' : nums'.length = 2) (h : Multi.RoundCallOk 2 S params nums tol) (h2 : 0 ≤ tol2)
+    (hle : ∀ e, e < 2 → nums'.getD e 0 ≤ nums.getD e 0) :
+    removeKnot (insertKnot S params nums tol c1).1 params nums' tol tol2 c2
+      = insertKnot S params (Multi.subNums nums nums') tol c1 :=
+  Multi.surface_insertKnot_removeKnot_multi d S hS params nums nums' tol tol2 c1 c2 h h2 hle
+
+/-- **… the same count lists: the ORIGINAL surface object comes back.** -/
+theorem surface_insert_then_remove_several_directions_same (d : ℕ) (S : Shape K) (hS : SurfWF d S)
+    (params : List (Option K)) (nums : List ℕ) (tol tol2 : K) (c1 c2 : Bool) (hpl : 2 ≤ params.length)
+    (hnl : nums.length = 2) (h : Multi.RoundCallOk 2 S params nums tol) (h2 : 0 ≤ tol2) :
+    removeKnot (insertKnot S params nums tol c1).1 params nums tol tol2 c2 = (S, true) :=
+  Multi.surface_insertKnot_removeKnot_multi_same d S hS params nums tol tol2 c1 c2 h h2
+
+/-- **… and no evaluated point changes**: at every parameter pair of the closed domain the surface after the removal
+    has the point of the refined surface, which is the point of the original one. -/
+theorem surface_remove_several_directions_preserves_points (d : ℕ) (S : Shape K) (hS : SurfWF d S)
+    (params : List (Option K)) (nums nums' : List ℕ) (tol tol2 : K) (c1 c2 : Bool) (hpl : 2 ≤ params.length)
+    (hnl : nums.length = 2) (hnl' : nums'.length = 2) (h : Multi.RoundCallOk 2 S params nums tol) (h2 : 0 ≤ tol2)
+    (hle : ∀ e, e < 2 → nums'.getD e 0 ≤ nums.getD e 0)
+    (u v : K) (hu1 : fnOf (S.kv 0) (S.deg 0) ≤ u) (hu2 : u ≤ fnOf (S.kv 0) (S.size 0))
+    (hv1 : fnOf (S.kv 1) (S.deg 1) ≤ v) (hv2 : v ≤ fnOf (S.kv 1) (S.size 1)) (j : ℕ) :
+    (surfEval (removeKnot (insertKnot S params nums tol c1).1 params nums' tol tol2 c2).1 u v).getD j 0
+      = (surfEval (insertKnot S params nums tol c1).1 u v).getD j 0 ∧
+    (surfEval (insertKnot S params nums tol c1).1 u v).getD j 0 = (surfEval S u v).getD j 0 :=
+  Multi.surface_insertKnot_removeKnot_multi_points d S hS params nums nums' tol tol2 c1 c2 h h2 hle u v hu1 hu2 hv1 hv2 j
+
+/-- **Volumes, several directions in one call each** (any subset of the three directions; the per-iso-curve model
+    `removeKnot`, which on inserted knots is the rows branch: `removeKnotVolRows_is_removeKnotDir`). -/
+theorem volume_insert_then_remove_several_directions (d : ℕ) (S : Shape K) (hS : VolWF d S) (params : List (Option K))
+    (nums nums' : List ℕ) (tol tol2 : K) (c1 c2 : Bool) (hpl : 3 ≤ params.length) (hnl : nums.length = 3)
+    (hnl' : nums'.length = 3) (h : Multi.RoundCallOk 3 S params nums tol) (h2 : 0 ≤ tol2)
+    (hle : ∀ e, e < 3 → nums'.getD e 0 ≤ nums.getD e 0) :
+    removeKnot (insertKnot S params nums tol c1).1 params nums' tol tol2 c2
+      = insertKnot S params (Multi.subNums nums nums') tol c1 :=
+  Multi.volume_insertKnot_removeKnot_multi d S hS params nums nums' tol tol2 c1 c2 h h2 hle
+
+/-- **… the same count lists: the ORIGINAL volume object comes back.** -/
+theorem volume_insert_then_remove_several_directions_same (d : ℕ) (S : Shape K) (hS : VolWF d S)
+    (params : List (Option K)) (nums : List ℕ) (tol tol2 : K) (c1 c2 : Bool) (hpl : 3 ≤ params.length)
+    (hnl : nums.length = 3) (h : Multi.RoundCallOk 3 S params nums tol) (h2 : 0 ≤ tol2) :
+    removeKnot (insertKnot S params nums tol c1).1 params nums tol tol2 c2 = (S, true) :=
+  Multi.volume_insertKnot_removeKnot_multi_same d S hS params nums tol tol2 c1 c2 h h2
+
+/-- **… and no volume point changes.** -/
+theorem volume_remove_several_directions_preserves_points (d : ℕ) (S : Shape K) (hS : VolWF d S)
+    (params : List (Option K)) (nums nums' : List ℕ) (tol tol2 : K) (c1 c2 : Bool) (hpl : 3 ≤ params.length)
+    (hnl : nums.length = 3) (hnl' : nums'.length = 3) (h : Multi.RoundCallOk 3 S params nums tol) (h2 : 0 ≤ tol2)
+    (hle : ∀ e, e < 3 → nums'.getD e 0 ≤ nums.getD e 0)
+    (u v w : K) (hu1 : fnOf (S.kv 0) (S.deg 0) ≤ u) (hu2 : u ≤ fnOf (S.kv 0) (S.size 0))
+    (hv1 : fnOf (S.kv 1) (S.deg 1) ≤ v) (hv2 : v ≤ fnOf (S.kv 1) (S.size 1))
+    (hw1 : fnOf (S.kv 2) (S.deg 2) ≤ w) (hw2 : w ≤ fnOf (S.kv 2) (S.size 2)) (j : ℕ) :
+    (volEval (removeKnot (insertKnot S params nums tol c1).1 params nums' tol tol2 c2).1 u v w).getD j 0
+      = (volEval (insertKnot S params nums tol c1).1 u v w).getD j 0 ∧
+    (volEval (insertKnot S params nums tol c1).1 u v w).getD j 0 = (volEval S u v w).getD j 0 :=
+  Multi.volume_insertKnot_removeKnot_multi_points d S hS params nums nums' tol tol2 c1 c2 h h2 hle u v w hu1 hu2 hv1 hv2
+    hw1 hw2 j
+
+/-- `Multi.remStepWith rem` is the loop body of `operations.remove_knot` with the direction step `rem`; with the
+    per-iso-curve step `removeKnotDir` the loop IS the model function `removeKnot` -/
+theorem removeKnot_is_loop_of_direction_steps (S : Shape K) (params : List (Option K)) (nums : List ℕ) (tol tol2 : K)
+    (check : Bool) :
+    removeKnot S params nums tol tol2 check
+      = (List.range S.pdim).foldl (Multi.remStepWith removeKnotDir params nums tol tol2 check) (S, true) := rfl
+
+/-- **Volumes, several directions in one call each, the removal computed THE WAY THE CODE DOES IT**: the loop of
+    `operations.remove_knot` over the three directions with the list-of-rows direction step `removeKnotVolRows` (one
+    removability flag per step, from the first iso-curve) returns what `insert_knot` with the counts `nums - nums'`
+    returns. -/
+theorem volume_insert_then_remove_several_directions_rows (d : ℕ) (S : Shape K) (hS : VolWF d S)
+    (params : List (Option K)) (nums nums' : List ℕ) (tol tol2 : K) (c1 c2 : Bool) (hpl : 3 ≤ params.length)
+    (hnl : nums.length = 3) (hnl' : nums'.length = 3) (h : Multi.RoundCallOk 3 S params nums tol) (h2 : 0 ≤ tol2)
+    (hle : ∀ e, e < 3 → nums'.getD e 0 ≤ nums.getD e 0) :
+    (List.range 3).foldl (Multi.remStepWith removeKnotVolRows params nums' tol tol2 c2)
+        ((insertKnot S params nums tol c1).1, true)
+      = insertKnot S params (Multi.subNums nums nums') tol c1 :=
+  Multi.volume_insertKnot_removeKnot_multi_rows d S hS params nums nums' tol tol2 c1 c2 h h2 hle
+
+/-! ### "removable at all", several directions in one `remove_knot` call
+
+`SurfRemChain d tol L S T` (`VolRemChain`): `L` lists entries `(dir, ub, r)`; from `S` the knot of the first entry is
+removable `r` times AS A SURFACE (`SurfRemovableObj`, section (T): some well-formed surface over the reduced knot vector
+has the same points – nothing assumed about how `S` was produced), from its witness the knot of the second entry, …,
+the last witness is `T`.  The directions of `L` are distinct; their ORDER is arbitrary (`remove_knot` always works
+through the directions `0, 1, 2`). -/
+
+/-- **Surfaces, whenever removable at all, several directions in one call**: `S` IS `insert_knot` of the last witness `T`
+    with all directions of the chain requested in one call (first two conclusions), and ONE `remove_knot` call on `S`
+    requesting these directions with counts `nums' ≤` the removable counts returns `insert_knot` of `T` with the counts
+    reduced – `T` itself when every copy is taken out.  `hpar`: the call's parameter / count of each chain direction
+    are the chain's; `hoth`: no other direction is requested. -/
+theorem surface_remove_removable_knots_several_directions (d : ℕ) (tol : K) (L : List (ℕ × K × ℕ)) (S T : Shape K)
+    (hT : SurfWF d T) (hch : Multi.SurfRemChain d tol L S T) (hnd : (L.map Prod.fst).Nodup)
+    (params : List (Option K)) (nums nums' : List ℕ) (hpl : 2 ≤ params.length) (hnl : nums.length = 2)
+    (hnl' : nums'.length = 2)
+    (hpar : ∀ q ∈ L, params.getD q.1 none = some q.2.1 ∧ nums.getD q.1 0 = q.2.2)
+    (hoth : ∀ e, e < 2 → e ∉ L.map Prod.fst → params.getD e none = none ∨ nums.getD e 0 = 0)
+    (tol2 : K) (h2 : 0 ≤ tol2) (c c' : Bool) (hle : ∀ e, e < 2 → nums'.getD e 0 ≤ nums.getD e 0) :
+    Multi.RoundCallOk 2 T params nums tol ∧ insertKnot T params nums tol c' = (S, true) ∧
+    removeKnot S params nums' tol tol2 c = insertKnot T params (Multi.subNums nums nums') tol c' ∧
+    ((∀ e, e < 2 → nums'.getD e 0 = nums.getD e 0) → removeKnot S params nums' tol tol2 c = (T, true)) :=
+  Multi.surface_remove_removable_chain d tol L S T hT hch hnd params nums nums' hpar hoth tol2 h2 c c' hle
+
+/-- **… evaluated points**: the surface after such a removal, and `S` itself, have the points of `T` on the closed
+    domain. -/
+theorem surface_remove_removable_knots_several_directions_points (d : ℕ) (tol : K) (L : List (ℕ × K × ℕ)) (S T : Shape K)
+    (hT : SurfWF d T) (hch : Multi.SurfRemChain d tol L S T) (hnd : (L.map Prod.fst).Nodup)
+    (params : List (Option K)) (nums nums' : List ℕ) (hpl : 2 ≤ params.length) (hnl : nums.length = 2)
+    (hnl' : nums'.length = 2)
+    (hpar : ∀ q ∈ L, params.getD q.1 none = some q.2.1 ∧ nums.getD q.1 0 = q.2.2)
+    (hoth : ∀ e, e < 2 → e ∉ L.map Prod.fst → params.getD e none = none ∨ nums.getD e 0 = 0)
+    (tol2 : K) (h2 : 0 ≤ tol2) (c : Bool) (hle : ∀ e, e < 2 → nums'.getD e 0 ≤ nums.getD e 0)
+    (u v : K) (hu1 : fnOf (T.kv 0) (T.deg 0) ≤ u) (hu2 : u ≤ fnOf (T.kv 0) (T.size 0))
+    (hv1 : fnOf (T.kv 1) (T.deg 1) ≤ v) (hv2 : v ≤ fnOf (T.kv 1) (T.size 1)) (j : ℕ) :
+    (surfEval (removeKnot S params nums' tol tol2 c).1 u v).getD j 0 = (surfEval T u v).getD j 0 ∧
+    (surfEval S u v).getD j 0 = (surfEval T u v).getD j 0 :=
+  Multi.surface_remove_removable_chain_points d tol L S T hT hch hnd params nums nums' hpar hoth tol2 h2 c hle u v
+    hu1 hu2 hv1 hv2 j
+
+/-- **Volumes, whenever removable at all, several directions in one call** (the per-iso-curve model `removeKnot`; up to
+    three links). -/
+theorem volume_remove_removable_knots_several_directions (d : ℕ) (tol : K) (L : List (ℕ × K × ℕ)) (S T : Shape K)
+    (hT : VolWF d T) (hch : Multi.VolRemChain d tol L S T) (hnd : (L.map Prod.fst).Nodup)
+    (params : List (Option K)) (nums nums' : List ℕ) (hpl : 3 ≤ params.length) (hnl : nums.length = 3)
+    (hnl' : nums'.length = 3)
+    (hpar : ∀ q ∈ L, params.getD q.1 none = some q.2.1 ∧ nums.getD q.1 0 = q.2.2)
+    (hoth : ∀ e, e < 3 → e ∉ L.map Prod.fst → params.getD e none = none ∨ nums.getD e 0 = 0)
+    (tol2 : K) (h2 : 0 ≤ tol2) (c c' : Bool) (hle : ∀ e, e < 3 → nums'.getD e 0 ≤ nums.getD e 0) :
+    Multi.RoundCallOk 3 T params nums tol ∧ insertKnot T params nums tol c' = (S, true) ∧
+    removeKnot S params nums' tol tol2 c = insertKnot T params (Multi.subNums nums nums') tol c' ∧
+    ((∀ e, e < 3 → nums'.getD e 0 = nums.getD e 0) → removeKnot S params nums' tol tol2 c = (T, true)) :=
+  Multi.volume_remove_removable_chain d tol L S T hT hch hnd params nums nums' hpar hoth tol2 h2 c c' hle
+
+/-- **… evaluated points, volumes.** -/
+theorem volume_remove_removable_knots_several_directions_points (d : ℕ) (tol : K) (L : List (ℕ × K × ℕ)) (S T : Shape K)
+    (hT : VolWF d T) (hch : Multi.VolRemChain d tol L S T) (hnd : (L.map Prod.fst).Nodup)
+    (params : List (Option K)) (nums nums' : List ℕ) (hpl : 3 ≤ params.length) (hnl : nums.length = 3)
+    (hnl' : nums'.length = 3)
+    (hpar : ∀ q ∈ L, params.getD q.1 none = some q.2.1 ∧ nums.getD q.1 0 = q.2.2)
+    (hoth : ∀ e, e < 3 → e ∉ L.map Prod.fst → params.getD e none = none ∨ nums.getD e 0 = 0)
+    (tol2 : K) (h2 : 0 ≤ tol2) (c : Bool) (hle : ∀ e, e < 3 → nums'.getD e 0 ≤ nums.getD e 0)
+    (u v w : K) (hu1 : fnOf (T.kv 0) (T.deg 0) ≤ u) (hu2 : u ≤ fnOf (T.kv 0) (T.size 0))
+    (hv1 : fnOf (T.kv 1) (T.deg 1) ≤ v) (hv2 : v ≤ fnOf (T.kv 1) (T.size 1))
+    (hw1 : fnOf (T.kv 2) (T.deg 2) ≤ w) (hw2 : w ≤ fnOf (T.kv 2) (T.size 2)) (j : ℕ) :
+    (volEval (removeKnot S params nums' tol tol2 c).1 u v w).getD j 0 = (volEval T u v w).getD j 0 ∧
+    (volEval S u v w).getD j 0 = (volEval T u v w).getD j 0 :=
+  Multi.volume_remove_removable_chain_points d tol L S T hT hch hnd params nums nums' hpar hoth tol2 h2 c hle u v w
+    hu1 hu2 hv1 hv2 hw1 hw2 j
+
+/-- **… the rows branch the code runs on volumes** returns the same. -/
+theorem volume_remove_removable_knots_several_directions_rows (d : ℕ) (tol : K) (L : List (ℕ × K × ℕ)) (S T : Shape K)
+    (hT : VolWF d T) (hch : Multi.VolRemChain d tol L S T) (hnd : (L.map Prod.fst).Nodup)
+    (params : List (Option K)) (nums nums' : List ℕ) (hpl : 3 ≤ params.length) (hnl : nums.length = 3)
+    (hnl' : nums'.length = 3)
+    (hpar : ∀ q ∈ L, params.getD q.1 none = some q.2.1 ∧ nums.getD q.1 0 = q.2.2)
+    (hoth : ∀ e, e < 3 → e ∉ L.map Prod.fst → params.getD e none = none ∨ nums.getD e 0 = 0)
+    (tol2 : K) (h2 : 0 ≤ tol2) (c c' : Bool) (hle : ∀ e, e < 3 → nums'.getD e 0 ≤ nums.getD e 0) :
+    (List.range 3).foldl (Multi.remStepWith removeKnotVolRows params nums' tol tol2 c) (S, true)
+      = insertKnot T params (Multi.subNums nums nums') tol c' ∧
+    ((∀ e, e < 3 → nums'.getD e 0 = nums.getD e 0) →
+      (List.range 3).foldl (Multi.remStepWith removeKnotVolRows params nums' tol tol2 c) (S, true) = (T, true)) :=
+  Multi.volume_remove_removable_chain_rows d tol L S T hT hch hnd params nums nums' hpar hoth tol2 h2 c c' hle
+
+/-! ### non-vacuity of section (M) -/
+
+/-- the example surface, BOTH directions requested in one call: `½` once along u (`p = 1`), `¼` twice along v (`p = 2`) –
+    both requests admissible … -/
+example : Multi.RoundCallOk 2 exSurfQ [some (1/2), some (1/4)] [1, 2] (1/10000000) := Multi.exSurfQ_roundCall
+
+/-- … counts `(1, 2)` in, `(1, 1)` out in one call each = counts `(0, 1)` in (by the theorem) … -/
+example : removeKnot (insertKnot exSurfQ [some (1/2), some (1/4)] [1, 2] (1/10000000) true).1
+      [some (1/2), some (1/4)] [1, 1] (1/10000000) 0 true
+    = insertKnot exSurfQ [some (1/2), some (1/4)] (Multi.subNums [1, 2] [1, 1]) (1/10000000) true :=
+  surface_insert_then_remove_several_directions 3 exSurfQ exSurfQ_wf _ _ _ _ 0 true true (by decide) (by decide) (by decide)
+    Multi.exSurfQ_roundCall (le_refl _) (by intro e he; rcases (by omega : e = 0 ∨ e = 1) with rfl | rfl <;> decide)
+
+/-- … the same equation as a kernel-checked RUN of the model (knot vectors, sizes, net, flag), `subNums [1,2] [1,1] = [0,1]` … -/
+example : Multi.subNums [1, 2] [1, 1] = [0, 1] ∧
+    (removeKnot (insertKnot exSurfQ [some (1/2), some (1/4)] [1, 2] (1/10000000) true).1
+      [some (1/2), some (1/4)] [1, 1] (1/10000000) 0 true).1.kvs = [[0,0,1,1], [0,0,0,1/4,1/2,1,1,1]] ∧
+    (removeKnot (insertKnot exSurfQ [some (1/2), some (1/4)] [1, 2] (1/10000000) true).1
+      [some (1/2), some (1/4)] [1, 1] (1/10000000) 0 true).1.sizes = [2, 5] ∧
+    (removeKnot (insertKnot exSurfQ [some (1/2), some (1/4)] [1, 2] (1/10000000) true).1
+      [some (1/2), some (1/4)] [1, 1] (1/10000000) 0 true).1.net
+      = (insertKnot exSurfQ [some (1/2), some (1/4)] [0, 1] (1/10000000) true).1.net ∧
+    (removeKnot (insertKnot exSurfQ [some (1/2), some (1/4)] [1, 2] (1/10000000) true).1
+      [some (1/2), some (1/4)] [1, 1] (1/10000000) 0 true).2 = true := by decide +kernel
+
+/-- … and all copies out: the original surface -/
+example : removeKnot (insertKnot exSurfQ [some (1/2), some (1/4)] [1, 2] (1/10000000) true).1
+      [some (1/2), some (1/4)] [1, 2] (1/10000000) 0 true = (exSurfQ, true) :=
+  surface_insert_then_remove_several_directions_same 3 exSurfQ exSurfQ_wf _ _ _ 0 true true (by decide) (by decide)
+    Multi.exSurfQ_roundCall (le_refl _)
+
+/-- the example volume, u and w requested in one call (`½` once, `¼` twice), one copy of `¼` left in: per-iso-curve model
+    and rows branch -/
+example : removeKnot (insertKnot exVolQ [some (1/2), none, some (1/4)] [1, 0, 2] (1/10000000) true).1
+      [some (1/2), none, some (1/4)] [1, 0, 1] (1/10000000) 0 true
+    = insertKnot exVolQ [some (1/2), none, some (1/4)] (Multi.subNums [1, 0, 2] [1, 0, 1]) (1/10000000) true ∧
+    (List.range 3).foldl (Multi.remStepWith removeKnotVolRows [some (1/2), none, some (1/4)] [1, 0, 1] (1/10000000) 0 true)
+        ((insertKnot exVolQ [some (1/2), none, some (1/4)] [1, 0, 2] (1/10000000) true).1, true)
+    = insertKnot exVolQ [some (1/2), none, some (1/4)] (Multi.subNums [1, 0, 2] [1, 0, 1]) (1/10000000) true :=
+  have hle : ∀ e, e < 3 → ([1, 0, 1] : List ℕ).getD e 0 ≤ ([1, 0, 2] : List ℕ).getD e 0 := by
+    intro e he; rcases (by omega : e = 0 ∨ e = 1 ∨ e = 2) with rfl | rfl | rfl <;> decide
+  ⟨volume_insert_then_remove_several_directions 3 exVolQ exVolQ_wf _ _ _ _ 0 true true (by decide) (by decide) (by decide)
+      Multi.exVolQ_roundCall (le_refl _) hle,
+   volume_insert_then_remove_several_directions_rows 3 exVolQ exVolQ_wf _ _ _ _ 0 true true (by decide) (by decide)
+      (by decide) Multi.exVolQ_roundCall (le_refl _) hle⟩
+
+/-- "removable at all": from the explicit `3 × 6` surface `exSurfRef2Q` (Lemmas/RemoveMultiExample.lean) `½` is removable
+    once along u and then `¼` twice along v, each AS A SURFACE (every field of `SurfRemovableObj` discharged) … -/
+example : Multi.SurfRemChain 3 (1/10000000) [(0, 1/2, 1), (1, 1/4, 2)] Multi.exSurfRef2Q exSurfQ := Multi.exSurfRef2Q_chain
+
+/-- … so ONE `remove_knot` call requesting both directions returns `exSurfQ` -/
+example : removeKnot Multi.exSurfRef2Q [some (1/2), some (1/4)] [1, 2] (1/10000000) 0 true = (exSurfQ, true) :=
+  (surface_remove_removable_knots_several_directions 3 _ _ _ _ exSurfQ_wf Multi.exSurfRef2Q_chain (by decide)
+    [some (1/2), some (1/4)] [1, 2] [1, 2] (by decide) (by decide) (by decide)
+    (by intro q hq
+        rcases List.mem_cons.mp hq with rfl | hq
+        · exact ⟨rfl, rfl⟩
+        · rcases List.mem_cons.mp hq with rfl | hq
+          · exact ⟨rfl, rfl⟩
+          · exact absurd hq List.not_mem_nil)
+    (by intro e he hne; exfalso; apply hne; rcases (by omega : e = 0 ∨ e = 1) with rfl | rfl <;> simp)
+    0 (le_refl _) true true (fun _ _ => le_refl _)).2.2.2 (fun _ _ => rfl)
 
 
 end C06
